@@ -227,6 +227,45 @@ OPTS = ['gf', 'gf_separator', 'gf_terminals', 'mark_heads_marking',
         'boyd_split_marking', 'boyd_split_numbering']
 
 
+def check_kept(ctx, rng):
+    """Several parse results alive at the same time (a caller compares the
+    labels of two nodes, collects the labels of a tree): each stays what it
+    was when parse_label returned it, whatever is parsed or edited later."""
+    T = ctx.R.trees
+    strings = []
+    for _ in range(rng.randint(2, 5)):
+        strings.append(_glue(
+            rng.choice(['NP', 'S', 'VP', 'WHNP', 'X', '*T*', 'EMPTY']), '-',
+            rng.choice(['--', 'SBJ', 'HD', 'OA', 'mo']),
+            rng.choice(['', '', '1', '23']), rng.choice(['', '', '2', '17']),
+            rng.choice(['', "'"]), always_label=True))
+    case = {'kind': 'kept', 'strings': strings}
+    ATTRS = ('label', 'gf', 'gapindex', 'coindex', 'headmarker')
+    kept = []
+    try:
+        for s_ in strings:
+            q = T.parse_label(s_)
+            kept.append((q, tuple(getattr(q, a) for a in ATTRS),
+                         T.format_label(q)))
+        # an edit of the last result is the caller's business and shows in
+        # that result only
+        last = kept[-1][0]
+        last.gf = '--'
+        last.coindex = ''
+    except Exception as exc:
+        _fail('parse-raises', case, 'raised %r' % (exc,))
+        return
+    for k, (q, parts, text) in enumerate(kept[:-1]):
+        now = tuple(getattr(q, a) for a in ATTRS)
+        if now != parts or T.format_label(q) != text:
+            _fail('parse-results-share-state', case, 'the result for %r was '
+                  '%r / %r when it was returned and is %r / %r after %d more '
+                  'calls' % (strings[k], parts, text, now, T.format_label(q),
+                             len(kept) - 1 - k))
+            return
+    ctx.stratum('several parse results alive at once')
+
+
 def check_get_label(ctx, rng, subset=None):
     T = ctx.R.trees
     is_cons = rng.random() < 0.6
@@ -317,6 +356,8 @@ def shard(ctx):
     for i in ctx.indices(ctx.pick(20000, 400000)):
         rng = ctx.rng('st', i)
         check_structured(ctx, rng)
+    for i in ctx.indices(ctx.pick(4000, 60000)):
+        check_kept(ctx, ctx.rng('kept', i))
     # every subset of the decoration options x node kinds
     k = 0
     for r in range(len(OPTS) + 1):
@@ -337,6 +378,11 @@ def shard(ctx):
 def replay(ctx, case):
     Cur.ctx = ctx
     install(ctx.R)
+    if case['kind'] == 'kept':
+        import random
+        for seed in range(200):
+            check_kept(ctx, random.Random(seed))
+        return
     if case['kind'] in ('string', 'parse', 'structured'):
         check_string(ctx, case['s'], case.get('sep')
                      if case.get('sep') not in (None, '-') else None)
